@@ -6,6 +6,12 @@ ALL = ["C%02d" % i for i in range(1, 21)]
 
 # property id -> dict(category, text, note, technique, design_ref)
 CLAIMED = {
+    "C03": dict(
+        category="other",
+        text="Carry-over state rules of the three readers and three exchange loops on every path: liveness of received chunks and leftovers (none overwritten or left behind before flowing into the result, the next reader or the returned leftover), EINTR retried at the single recv site and nothing else swallowed, no dependence on the receive size, the segment reader's end-token search runs on an accumulating buffer with an offset that goes back at least len(token)-1 bytes (linear normal form), the sized reader touches payload by position only. NOT decided: the byte arithmetic of _readvalue/_readline across pieces and equality of results over all segmentations (numeric loop invariants).",
+        note="Trusted: CPython ast; path interpreter; chunk-liveness transfer functions.",
+        technique="liveness / def-use path analysis of received chunks + structural rules on the search buffer",
+    ),
     "C12": dict(
         category="other",
         text="Routing structure of HashClient: a single routing function that asks the hasher about the raw server key on every path and returns the inner key (path analysis for plain keys and pairs); all call sites route with the same arguments; in the batching loops each key is inserted exactly once, under its inner key, into the batch of the server its own routing call returned and is skipped only when no server is left; batches are dispatched once to the client registered under that server; results are merged. Equality of merged values with per-key gets is a runtime consequence (with C16), not decided.",
